@@ -347,7 +347,7 @@ def endpoint_cases(rng, n):
 def generate(rng, tier):
     for case in _generate(rng, tier):
         yield case
-    for case in endpoint_cases(rng, 500 if tier == 'quick' else 20000):
+    for case in endpoint_cases(rng, 500 if tier == 'quick' else 8000):
         yield case
 
 
